@@ -81,11 +81,38 @@ def _fix_markers(module):
                     body.append(l[:-len(mk) - 1])
                 else:
                     body.append(l)
-            d["lines"] = [mk + " marker paragraph.", ""] + body
+            while body and body[0] == "":
+                body.pop(0)
+            num = int("".join(ch for ch in mk if ch.isdigit()) or 0)
+            place = num % 3
+            if place == 1 and body:
+                d["lines"] = body + ["", mk + " closing marker paragraph."]
+            elif place == 2 and body:
+                # inside the last line that is running text (paragraph or indented body text)
+                idx = None
+                for i in range(len(body) - 1, -1, -1):
+                    t = body[i].strip()
+                    if t and not t.startswith((".. ", ":", "* ", "- ", "#. ")) and not t.endswith("::") and \
+                            (body[i].startswith("   ") is False or not any(x in t for x in ("(", "=", "#"))):
+                        idx = i
+                        break
+                if idx is None:
+                    d["lines"] = [mk + " marker paragraph.", ""] + body
+                else:
+                    body[idx] = body[idx] + " " + mk
+                    d["lines"] = body
+            else:
+                d["lines"] = [mk + " marker paragraph.", ""] + body
     for it, _, _ in G.walk(mod["items"]):
         fix(it.get("doc"))
     if mod.get("moddoc"):
         fix(mod["moddoc"])
+        # docutils measures title adornments in display columns; C12 fixes them to the title's length in characters.
+        # East Asian wide characters make the two differ, so C07 keeps titles to narrow characters.
+        import unicodedata
+        nm = mod["moddoc"].get("name")
+        if nm and any(unicodedata.east_asian_width(ch) in ("W", "F") for ch in nm):
+            mod["moddoc"]["name"] = "wide_" + "".join(ch for ch in nm if ch.isascii())
     return mod
 
 
@@ -189,6 +216,19 @@ def evaluate(case):
         n_doc_adm = sum(1 for it, _, _ in G.walk(module["items"]) if False)
         if len([a for a in adm if a.astext().startswith(("This is", "This member", "This variable"))]) != n_exp_adm:
             res.fail("containment:admonition", f"{e['dir']} {e.get('name')!r}: expected {n_exp_adm} generated admonitions inside the entry")
+        for grp in ("ctors", "methods"):
+            for m in (e.get(grp) or []):
+                cands = [sn for sn in subs if sn["dname"] == "py:method" and sn["darg"].startswith(m["name"] + "(")]
+                want_fields = [n for n, _ in m["fields"]]
+                if want_fields and cands:
+                    ok = False
+                    for sn in cands:
+                        have = [f.children[0].astext() for f in sn.traverse(nodes.field)]
+                        if all(w in have for w in want_fields):
+                            ok = True
+                    if not ok:
+                        res.fail("containment:method-fields", f"{e['name']}.{m['name']}: generated fields {want_fields} are not field "
+                                                              f"nodes inside the method entry")
         if e["dir"] == "data":
             names = [f.children[0].astext() for f in node.traverse(nodes.field)]
             for want_f, _ in e["fields"]:
